@@ -48,6 +48,10 @@ func runC01(c *core.Ctx) {
 		// strings from a tiny pool: adjacent layers with EQUAL texts (the comparison is differential, no tokens needed)
 		g.Str = gen.Pool([]string{"h1", "h2", "h1", "k: v", "d", "h1"})
 	}
+	if c.Case%8 == 7 {
+		// regular strings with a byte sequence that is not valid UTF-8 (the comparison is differential, no tokens needed)
+		g.Str = gen.RegularBin
+	}
 	t := caseTree(c, g, 7)
 	if c.Case%8 == 5 && c.Case >= gen.SweepSize() {
 		// ... in a chain of 2..9 annotation wrappers over a small tree (as in C19)
